@@ -259,10 +259,10 @@ Section Convert.
     - exact (IH ND' H1 H2).
   Qed.
 
-  Lemma has_edge_of u v w (a b : Z) : has_edge (to_edges self_dg) (Z.to_nat a) (Z.to_nat b) w -> (0 <= a)%Z -> (0 <= b)%Z ->
+  Lemma has_edge_of w (a b : Z) : has_edge (to_edges self_dg) (Z.to_nat a) (Z.to_nat b) w -> (0 <= a)%Z -> (0 <= b)%Z ->
     In (Line a, Line b, w) (nx_edges_data self_dg).
   Proof.
-    clear u v. intros H Ha Hb. unfold has_edge, to_edges in H. apply in_map_iff in H. destruct H as ([[u v] w'] & E & Hin).
+    intros H Ha Hb. unfold has_edge, to_edges in H. apply in_map_iff in H. destruct H as ([[u v] w'] & E & Hin).
     unfold to_edge in E. cbn [fst snd] in E. inversion E as [[E1 E2 E3 E4]]. subst w'.
     destruct (G2 u v w Hin) as ((b' & -> & Hb') & Hu). cbn [node_int] in *. destruct u as [a'|a']; [|discriminate]. cbn [node_int] in *.
     apply Z2Nat.inj in E1; [|assumption|assumption]. apply Z2Nat.inj in E3; [|assumption|assumption]. subst. exact Hin.
@@ -275,7 +275,7 @@ Section Convert.
     assert (He : has_edge (to_edges self_dg) (Z.to_nat a) (Z.to_nat b) w).
     { unfold has_edge, to_edges. apply in_map_iff. exists (Line a, Line b, w). split; [reflexivity | exact H]. }
     destruct (weight_complete _ _ _ _ He) as (w' & Hw & He'). rewrite Hw. f_equal.
-    apply (has_edge_of (Line a) (Line b)) in He'; [|assumption|assumption]. exact (edge_unique _ _ _ _ He' H).
+    apply has_edge_of in He'; [|assumption|assumption]. exact (edge_unique _ _ _ _ He' H).
   Qed.
 
   Lemma loadw_of_nx a w : nx_edge_latency self_dg (Load a) (Line a) = POk w -> loadw QNum (to_edges self_dg) (Z.to_nat a) = w.
@@ -303,3 +303,336 @@ Section Convert.
     - apply IH; [exact Hin | intros w' H; apply Hu; right; exact H].
   Qed.
 End Convert.
+
+(* ------------------------------------------------------------------ the order of the kernel *)
+Fixpoint pos (L : list Z) (z : Z) : nat := match L with [] => 0%nat | x :: r => if Z.eqb x z then 0%nat else S (pos r z) end.
+Fixpoint increasing (L cs : list Z) : Prop :=
+  match cs with
+  | a :: r => match r with b :: _ => (pos L a < pos L b)%nat /\ increasing L r | [] => True end
+  | [] => True
+  end.
+
+Lemma increasing_all L : forall cs a, increasing L (a :: cs) -> forall b, In b cs -> (pos L a < pos L b)%nat.
+Proof.
+  induction cs as [|c cs IH]; intros a H b Hb; [contradiction|]. cbn [increasing] in H. destruct H as (H1 & H2).
+  destruct Hb as [<-|Hb]; [exact H1|]. specialize (IH c H2 b Hb). lia.
+Qed.
+Lemma increasing_tail L a cs : increasing L (a :: cs) -> increasing L cs.
+Proof. destruct cs; [intros; exact I | cbn [increasing]; tauto]. Qed.
+Lemma increasing_nodup L : forall cs, increasing L cs -> NoDup cs.
+Proof.
+  induction cs as [|a cs IH]; intros H; constructor.
+  - intros Hin. pose proof (increasing_all L cs a H a Hin). lia.
+  - apply IH. eapply increasing_tail. exact H.
+Qed.
+Lemma increasing_drop x L : forall cs, increasing (x :: L) cs -> (forall z, In z cs -> z <> x) -> increasing L cs.
+Proof.
+  induction cs as [|a cs IH]; intros H Hne; [exact I|]. destruct cs as [|b cs]; [exact I|]. cbn [increasing] in H |- *. destruct H as (H1 & H2).
+  split; [|apply IH; [exact H2 | intros z Hz; apply Hne; right; exact Hz]].
+  cbn [pos] in H1. destruct (Z.eqb_spec x a) as [E|_]; [exfalso; apply (Hne a); [left; reflexivity | symmetry; exact E]|].
+  destruct (Z.eqb_spec x b) as [E|_]; [exfalso; apply (Hne b); [right; left; reflexivity | symmetry; exact E]|]. lia.
+Qed.
+
+(* the lines of a chain, picked out of the kernel in kernel order, are the chain *)
+Lemma filter_increasing : forall L cs, NoDup L -> (forall z, In z cs -> In z L) -> increasing L cs ->
+  filter (fun z => existsb (Z.eqb z) cs) L = cs.
+Proof.
+  induction L as [|x L IH]; intros cs ND Hsub Hinc.
+  - destruct cs as [|a cs]; [reflexivity|]. destruct (Hsub a (or_introl eq_refl)).
+  - inversion ND as [|? ? Hnot ND']; subst. destruct cs as [|a cs].
+    + cbn [filter existsb]. apply (IH [] ND'); [intros z [] | exact I].
+    + destruct (Z.eq_dec a x) as [->|Ne].
+      * assert (Hx : forall b, In b cs -> b <> x).
+        { intros b Hb ->. pose proof (increasing_all _ _ _ Hinc x Hb). lia. }
+        cbn [filter existsb]. rewrite Z.eqb_refl. cbn [orb]. f_equal.
+        rewrite (filter_ext_in _ (fun z => existsb (Z.eqb z) cs)).
+        -- apply IH; [exact ND' | | apply (increasing_drop x); [eapply increasing_tail; exact Hinc | exact Hx]].
+           intros z Hz. destruct (Hsub z (or_intror Hz)) as [E|Hin]; [exfalso; apply (Hx z Hz); symmetry; exact E | exact Hin].
+        -- intros z Hz. cbn [existsb]. destruct (Z.eqb_spec z x) as [->|_]; [contradiction | reflexivity].
+      * assert (Hx : forall b, In b (a :: cs) -> b <> x).
+        { intros b [<-|Hb]; [exact Ne|]. intros ->. pose proof (increasing_all _ _ _ Hinc x Hb) as P. cbn [pos] in P.
+          rewrite Z.eqb_refl in P. lia. }
+        cbn [filter]. assert (E : existsb (Z.eqb x) (a :: cs) = false).
+        { destruct (existsb (Z.eqb x) (a :: cs)) eqn:E; [|reflexivity]. apply existsb_exists in E. destruct E as (b & Hb & Eb).
+          apply Z.eqb_eq in Eb. subst b. exfalso. exact (Hx x Hb eq_refl). }
+        rewrite E. apply IH; [exact ND' | | apply (increasing_drop x); assumption].
+        intros z Hz. destruct (Hsub z Hz) as [Ez|Hin]; [exfalso; apply (Hx z Hz); symmetry; exact Ez | exact Hin].
+Qed.
+
+(* ------------------------------------------------------------------ small facts used by the main theorem *)
+Lemma nodup_map_inj {A B} (f : A -> B) : forall (l : list A) x y, NoDup (map f l) -> In x l -> In y l -> f x = f y -> x = y.
+Proof.
+  induction l as [|a l IH]; intros x y ND Hx Hy E; [contradiction|]. cbn [map] in ND. inversion ND as [|? ? Hnot ND']; subst.
+  destruct Hx as [->|Hx], Hy as [->|Hy]; [reflexivity | | |].
+  - exfalso. apply Hnot. rewrite E. apply in_map. exact Hy.
+  - exfalso. apply Hnot. rewrite <- E. apply in_map. exact Hx.
+  - exact (IH x y ND' Hx Hy E).
+Qed.
+
+Lemma filter_idx_nth {A} (p : A -> bool) : forall (h pre : list A),
+  map (nth_error (pre ++ h)) (py_filter_idx_from p h (List.length pre)) = map Some (filter p h).
+Proof.
+  induction h as [|x h IH]; intros pre; [reflexivity|]. cbn [py_filter_idx_from filter].
+  specialize (IH (pre ++ [x])). rewrite <- app_assoc, app_length in IH. cbn [app List.length] in IH. rewrite Nat.add_1_r in IH.
+  destruct (p x); [|exact IH]. cbn [map]. rewrite IH. f_equal. rewrite nth_error_app2 by lia. rewrite Nat.sub_diag. reflexivity.
+Qed.
+
+Lemma filter_map_comm {A B} (f : A -> B) (q : B -> bool) : forall l, filter q (map f l) = map f (filter (fun x => q (f x)) l).
+Proof. induction l as [|x l IH]; [reflexivity|]. cbn [map filter]. destruct (q (f x)); [cbn [map]; f_equal|]; exact IH. Qed.
+
+Lemma zfun_notin : forall zs (c : cfun) z, ~ In z zs -> zfun c zs z = c z.
+Proof.
+  unfold zfun. induction zs as [|x zs IH]; intros c z H; [reflexivity|]. cbn [fold_left]. rewrite IH by (intros Hin; apply H; right; exact Hin).
+  unfold cset. destruct (Z.eqb_spec z x) as [E|_]; [exfalso; apply H; left; symmetry; exact E | reflexivity].
+Qed.
+Lemma zfun_in : forall zs (c : cfun) z, In z zs -> zfun c zs z = 0.
+Proof.
+  induction zs as [|x zs IH]; intros c z H; [contradiction|]. destruct (in_dec Z.eq_dec z zs) as [Hin|Hnot].
+  - unfold zfun in *. cbn [fold_left]. apply IH. exact Hin.
+  - destruct H as [->|H]; [|contradiction]. change (zfun c (z :: zs) z) with (zfun (cset c z 0) zs z). rewrite zfun_notin by exact Hnot.
+    unfold cset. rewrite Z.eqb_refl. reflexivity.
+Qed.
+
+Lemma last_map_f {A B} (f : A -> B) : forall l d, last (map f l) (f d) = f (last l d).
+Proof. induction l as [|x l IH]; intros d; [reflexivity|]. cbn [map last]. destruct l; [reflexivity|]. cbn [map] in *. apply (IH d). Qed.
+
+Lemma fix_path_shape lp0 lp : fix_path lp0 = POk lp ->
+  (exists z rest, lp = Line z :: rest) \/ (exists n rest, lp = Load n :: Line n :: rest).
+Proof.
+  unfold fix_path. intros H. destruct (py_last lp0) as [lst|]; [|discriminate]. cbn [pbind] in H.
+  set (lp1 := if node_eq_int lst sink then py_drop_last lp0 else lp0) in *.
+  destruct (py_nth lp1 0) as [first|] eqn:E; [|discriminate]. cbn [pbind] in H. inversion H as [H1]. clear H.
+  unfold py_nth in E. destruct lp1 as [|f rest]; [discriminate|]. cbn in E. inversion E; subst f.
+  destruct first as [z|n]; cbn [node_int node_eq_int].
+  - rewrite Z.eqb_refl. cbn [negb]. left. exists z, rest. reflexivity.
+  - cbn [negb]. right. exists n, rest. reflexivity.
+Qed.
+
+(* ------------------------------------------------------------------ MAIN *)
+Section Main.
+  Context {I : Type} (ln : I -> Z) (lat lcp : I -> Q) (set_lcp : I -> Q -> I).
+  Hypothesis ln_set : forall i v, ln (set_lcp i v) = ln i.
+  Hypothesis lat_set : forall i v, lat (set_lcp i v) = lat i.
+  Hypothesis lcp_set : forall i v, lcp (set_lcp i v) = v.
+  Variable self_dg : nxg Q.
+  Hypothesis G1 : NoDup (map ekey (nx_edges_data self_dg)).
+  Hypothesis G2 : forall u v w, In (u, v, w) (nx_edges_data self_dg) -> (exists b, v = Line b /\ (0 <= b)%Z) /\ (0 <= node_int u)%Z.
+  Variable heap : list I.
+  Hypothesis ND : NoDup (map ln heap).
+  Hypothesis NN : forall i, In i heap -> (0 <= ln i)%Z.
+  (* dependency edges point forward in the kernel *)
+  Hypothesis G3 : forall a b w, In (Line a, Line b, w) (nx_edges_data self_dg) -> (pos (map ln heap) a < pos (map ln heap) b)%nat.
+
+  (* the kernel as Model/CritPath.v sees it, and the reported cells *)
+  Definition kernel_of (h : list I) : list (nat * Q) := combine (map Z.to_nat (map ln h)) (map lat h).
+  Definition cells_of (refs : list nat) (h : list I) : list (nat * Q) :=
+    map (fun r => match nth_error h r with Some i => (Z.to_nat (ln i), lcp i) | None => (0%nat, 0) end) refs.
+
+  Lemma lookup_kernel : forall (h : list I) i, NoDup (map ln h) -> (forall j, In j h -> (0 <= ln j)%Z) -> In i h ->
+    lookup (kernel_of h) (Z.to_nat (ln i)) = Some (lat i).
+  Proof.
+    induction h as [|x h IH]; intros i NDh Hnn Hi; [contradiction|]. unfold kernel_of. cbn [map combine lookup].
+    inversion NDh as [|? ? Hnot NDh']; subst.
+    destruct (Nat.eqb_spec (Z.to_nat (ln i)) (Z.to_nat (ln x))) as [E|E].
+    - apply Z2Nat.inj in E; [| apply Hnn; exact Hi | apply Hnn; left; reflexivity].
+      destruct Hi as [->|Hi]; [reflexivity|]. exfalso. apply Hnot. rewrite <- E. apply in_map. exact Hi.
+    - destruct Hi as [->|Hi]; [congruence|]. apply IH; [exact NDh' | intros j Hj; apply Hnn; right; exact Hj | exact Hi].
+  Qed.
+
+  Let P (sd : node * node) (zw : Z * Q) : Prop :=
+    fst zw = node_int (fst sd) /\ nx_edge_latency self_dg (fst sd) (snd sd) = POk (snd zw).
+  Fixpoint nxlinked (c0 : Z) (steps : list (Q * Z)) : Prop :=
+    match steps with [] => True | wc :: r => nx_edge_latency self_dg (Line c0) (Line (snd wc)) = POk (fst wc) /\ nxlinked (snd wc) r end.
+
+  Lemma plain_steps : forall rest c0 ws, Forall2 P (py_pairwise (Line c0 :: rest)) ws ->
+    exists steps, rest = map Line (map snd steps) /\ ws = srcs c0 steps /\ nxlinked c0 steps.
+  Proof.
+    induction rest as [|y r IH]; intros c0 ws F.
+    - inversion F; subst. exists []. repeat split.
+    - change (py_pairwise (Line c0 :: y :: r)) with ((Line c0, y) :: py_pairwise (y :: r)) in F.
+      inversion F as [|sd zw l l' HP F']; subst. destruct HP as (E1 & E2). destruct zw as [z w]. cbn [fst snd node_int] in E1, E2. subst z.
+      pose proof (nx_latency_in _ _ _ _ E2) as Hin. destruct (G2 _ _ _ Hin) as ((b & -> & _) & _).
+      destruct (IH b l' F') as (steps & Er & Ew & Hl). exists ((w, b) :: steps).
+      split; [cbn [map snd]; rewrite Er; reflexivity|]. split; [cbn [srcs fst snd]; rewrite <- Ew; reflexivity|].
+      cbn [nxlinked fst snd]. split; assumption.
+  Qed.
+
+  Lemma nxlinked_linked : forall steps c0, nxlinked c0 steps -> linked (to_edges self_dg) c0 steps.
+  Proof.
+    induction steps as [|wc r IH]; intros c0 H; [exact Logic.I|]. destruct H as (H1 & H2). split; [apply (weight_of_nx self_dg G1 G2); exact H1 | apply IH; exact H2].
+  Qed.
+  Lemma nxlinked_increasing : forall steps c0, nxlinked c0 steps -> increasing (map ln heap) (lines c0 steps).
+  Proof.
+    induction steps as [|wc r IH]; intros c0 H; [exact Logic.I|]. destruct H as (H1 & H2). unfold lines. cbn [map increasing].
+    split; [apply (G3 _ _ (fst wc)); apply nx_latency_in; exact H1 | apply (IH (snd wc) H2)].
+  Qed.
+
+  Lemma existsb_lines cs z : existsb (fun n => node_eq_int n z) (map Line cs) = existsb (Z.eqb z) cs.
+  Proof. induction cs as [|a cs IH]; [reflexivity|]. cbn [map existsb node_eq_int]. rewrite IH, (Z.eqb_sym a z). reflexivity. Qed.
+
+  Definition c_init : cfun := fun z => match find (fun i => Z.eqb (ln i) z) heap with Some i => lcp i | None => 0 end.
+  Lemma R_init : R ln lcp heap c_init.
+  Proof.
+    intros i Hi. unfold c_init. destruct (find (fun j => Z.eqb (ln j) (ln i)) heap) as [j|] eqn:F.
+    - apply find_some in F. destruct F as (Hj & E). apply Z.eqb_eq in E. rewrite (nodup_map_inj ln heap j i ND Hj Hi E). reflexivity.
+    - pose proof (find_none _ _ F i Hi) as C. cbn in C. rewrite Z.eqb_refl in C. discriminate.
+  Qed.
+
+  (* WHENEVER get_critical_path (its functional reading) returns, the reported lines with their latency_cp pass cert_ok on self.dg:
+     they are a dependency chain, every cell is the weight of the edge to the next line (the first one may carry the load stage of
+     its line in addition), the last cell is the latency of its instruction -- for ANY behaviour of the two networkx algorithms *)
+  Theorem cp_model_certificate is_dag longest refs heap' :
+    cp_model QNum ln lat lcp set_lcp is_dag longest self_dg heap = POk (refs, heap') ->
+    cert_ok QNum (to_edges self_dg) (lookup (kernel_of heap)) true (cells_of refs heap') = true /\
+    map ln heap' = map ln heap /\ map lat heap' = map lat heap.
+  Proof.
+    unfold cp_model. intros H.
+    destruct (py_max_key_idx _ (map lat heap)) as [mx|]; [|discriminate]. cbn [pbind] in H.
+    destruct (is_dag self_dg); [|discriminate].
+    destruct (fix_path (longest _)) as [lp|] eqn:Efix; [|discriminate]. cbn [pbind] in H.
+    destruct (py_for lp heap _) as [h1|] eqn:Ez; [|discriminate]. cbn [pbind] in H.
+    destruct (py_for (py_pairwise lp) _ _) as [[h2 pl]|] eqn:Ea; [|discriminate]. cbn [pbind fst snd] in H.
+    destruct (py_last lp) as [lst|] eqn:El; [|discriminate]. cbn [pbind] in H.
+    destruct (node_by_lineno ln h2 (node_int lst)) as [r|] eqn:Er; [|discriminate]. cbn [pbind] in H.
+    (* the loops *)
+    destruct (zero_loop ln lat lcp set_lcp ln_set lat_set lcp_set lp heap h1 c_init ND R_init Ez) as (R1 & L1 & A1 & In1).
+    assert (ND1 : NoDup (map ln h1)) by (rewrite L1; exact ND).
+    destruct (acc_loop ln lat lcp set_lcp ln_set lat_set lcp_set self_dg _ _ _ _ _ _ ND1 R1 Ea) as (ws & F & R2 & L2 & A2 & _).
+    assert (ND2 : NoDup (map ln h2)) by (rewrite L2; exact ND1).
+    destruct (by_line ln set_lcp h2 (node_int lst) r ND2 Er) as (il & Hdl & Hil & Hzl & Hsetl).
+    unfold set_cp at 1 in H. rewrite Hdl in H. cbn [pbind] in H. rewrite (Hsetl lat) in H. cbn [pbind] in H.
+    set (h3 := upd ln set_lcp h2 (node_int lst) lat) in *.
+    assert (L3 : map ln h3 = map ln heap) by (unfold h3; rewrite (upd_ln ln set_lcp ln_set), L2, L1; reflexivity).
+    assert (A3 : map lat h3 = map lat heap) by (unfold h3; rewrite (upd_lat ln lat set_lcp lat_set), A2, A1; reflexivity).
+    assert (ND3 : NoDup (map ln h3)) by (rewrite L3; exact ND).
+    assert (NN3 : forall j, In j h3 -> (0 <= ln j)%Z).
+    { intros j Hj. assert (Hin : In (ln j) (map ln heap)) by (rewrite <- L3; apply in_map; exact Hj).
+      apply in_map_iff in Hin. destruct Hin as (j0 & <- & Hj0). apply NN. exact Hj0. }
+    assert (K3 : kernel_of h3 = kernel_of heap) by (unfold kernel_of; rewrite L3, A3; reflexivity).
+    assert (R3 : R ln lcp h3 (cset (acc_fun ws (zfun c_init (map node_int lp))) (node_int lst) (lat il))).
+    { unfold h3. apply (R_upd ln lcp set_lcp ln_set lcp_set); [exact R2|]. intros j Hj Ej.
+      rewrite (nodup_map_inj ln h2 j il ND2 Hj Hil (eq_trans Ej (eq_sym Hzl))). reflexivity. }
+    assert (Hil3 : In (set_lcp il (lat il)) h3).
+    { unfold h3, upd. apply in_map_iff. exists il. rewrite Hzl, Z.eqb_refl. split; [reflexivity | exact Hil]. }
+    clearbody h3.
+    destruct (py_deref h3 r) as [i2|]; [|discriminate]. cbn [pbind] in H.
+    destruct (py_deref h3 mx) as [im|] eqn:Edm; [|discriminate]. cbn [pbind] in H.
+    destruct (nltb QNum _ (lat im)).
+    - (* the single instruction with the greatest latency *)
+      unfold set_cp in H. rewrite Edm in H. cbn [pbind] in H.
+      unfold py_deref, py_nth in Edm. destruct (nth_error h3 mx) as [im'|] eqn:Em; [|discriminate]. inversion Edm; subst im'.
+      assert (Eset : py_heap_set h3 mx (set_lcp im (lat im)) = POk (upd ln set_lcp h3 (ln im) lat))
+        by (rewrite (heap_set_split h3 mx im _ Em), (upd_split ln set_lcp h3 (ln im) lat mx im ND3 Em eq_refl); reflexivity).
+      rewrite Eset in H. cbn [pbind] in H. inversion H; subst refs heap'. clear H.
+      split; [|split; [rewrite (upd_ln ln set_lcp ln_set); exact L3 | rewrite (upd_lat ln lat set_lcp lat_set); exact A3]].
+      unfold cells_of. cbn [map]. unfold upd. rewrite (map_nth_error _ _ _ Em). rewrite Z.eqb_refl.
+      rewrite ln_set, lcp_set, cert_ok_one, <- K3, (lookup_kernel h3 im ND3 NN3 (nth_error_In _ _ Em)).
+      apply neqb_iff. reflexivity.
+    - (* the path *)
+      rewrite (py_filterM_deref (fun i => existsb (fun n => node_eq_int n (ln i)) lp) h3) in H. cbn [pbind] in H.
+      inversion H; subst refs heap'. clear H. split; [|split; [exact L3 | exact A3]].
+      set (c3 := cset (acc_fun ws (zfun c_init (map node_int lp))) (node_int lst) (lat il)) in *.
+      (* what was reported: the lines of the kernel that lie on the path, with their cells *)
+      assert (Ecells : forall cs, (forall z, existsb (fun n => node_eq_int n z) lp = existsb (Z.eqb z) cs) ->
+                cells_of (py_filter_idx (fun i => existsb (fun n => node_eq_int n (ln i)) lp) h3) h3 =
+                map (fun z => (Z.to_nat z, c3 z)) (filter (fun z => existsb (Z.eqb z) cs) (map ln heap))).
+      { intros cs Hcs. unfold cells_of, py_filter_idx.
+        rewrite <- (map_map (nth_error h3) (fun o => match o with Some i => (Z.to_nat (ln i), lcp i) | None => (0%nat, 0) end)).
+        rewrite (filter_idx_nth _ h3 []). rewrite map_map, <- L3, filter_map_comm, map_map.
+        rewrite (filter_ext _ (fun i => existsb (Z.eqb (ln i)) cs)) by (intros i; apply Hcs).
+        apply map_ext_in. intros i Hi. apply filter_In in Hi. rewrite (R3 i (proj1 Hi)). reflexivity. }
+      assert (Hlatl : lookup (kernel_of heap) (Z.to_nat (node_int lst)) = Some (lat il)).
+      { (* the object itself has been replaced by its updated copy: same line, same latency *)
+        pose proof (lookup_kernel h3 (set_lcp il (lat il)) ND3 NN3 Hil3) as LK.
+        rewrite ln_set, lat_set, Hzl, K3 in LK. exact LK. }
+      assert (Hfin : forall c0 steps (c : cfun) (lp' : list node),
+                 (forall z, existsb (fun n => node_eq_int n z) lp = existsb (Z.eqb z) (lines c0 steps)) ->
+                 (forall z, In z (lines c0 steps) -> In z (map ln heap)) ->
+                 nxlinked c0 steps -> node_int lst = last_line c0 steps ->
+                 acc_fun ws (zfun c_init (map node_int lp)) = acc_fun (srcs c0 steps) c ->
+                 (forall z, In z (map snd steps) -> c z == 0) ->
+                 (forall w0 c1 r0, steps = (w0, c1) :: r0 ->
+                    nadd QNum (c c0) w0 == w0 \/ nadd QNum (c c0) w0 == loadw QNum (to_edges self_dg) (Z.to_nat c0) + w0) ->
+                 cert_ok QNum (to_edges self_dg) (lookup (kernel_of heap)) true
+                   (cells_of (py_filter_idx (fun i => existsb (fun n => node_eq_int n (ln i)) lp) h3) h3) = true).
+      { intros c0 steps c _ Hex Hsub Hnx Elst Eacc Hzero Hhead.
+        rewrite (Ecells (lines c0 steps) Hex).
+        rewrite (filter_increasing (map ln heap) (lines c0 steps) ND Hsub (nxlinked_increasing steps c0 Hnx)).
+        unfold c3. rewrite Eacc, Elst.
+        apply (plain_cert (to_edges self_dg) (lookup (kernel_of heap)) (fun _ => lat il) steps c0 c true).
+        - apply (increasing_nodup (map ln heap)). apply nxlinked_increasing. exact Hnx.
+        - apply nxlinked_linked. exact Hnx.
+        - exact Hzero.
+        - intros w0 c1 r0 E. destruct (Hhead w0 c1 r0 E) as [H1|H1]; [left; exact H1 | right; split; [reflexivity | exact H1]].
+        - rewrite <- Elst. exact Hlatl. }
+      assert (Hsub0 : forall z, In (Line z) lp -> In z (map ln heap)).
+      { intros z Hz. rewrite Forall_forall in In1. exact (In1 (Line z) Hz). }
+      destruct (fix_path_shape _ _ Efix) as [(c0 & rest & Elp)|(c0 & rest & Elp)]; subst lp.
+      + (* the path starts at an instruction *)
+        destruct (plain_steps rest c0 ws F) as (steps & -> & -> & Hnx).
+        assert (Elst : node_int lst = last_line c0 steps).
+        { unfold py_last in El. inversion El. rewrite (last_map_f Line). reflexivity. }
+        assert (Eints : map node_int (Line c0 :: map Line (map snd steps)) = lines c0 steps)
+          by (unfold lines; cbn [map node_int]; rewrite map_map; cbn [node_int]; rewrite map_id; reflexivity).
+        apply (Hfin c0 steps (zfun c_init (map node_int (Line c0 :: map Line (map snd steps)))) []).
+        * intros z. apply (existsb_lines (lines c0 steps) z).
+        * intros z Hz. apply Hsub0. change (Line c0 :: map Line (map snd steps)) with (map Line (lines c0 steps)). apply in_map. exact Hz.
+        * exact Hnx.
+        * exact Elst.
+        * reflexivity.
+        * intros z Hz. rewrite Eints, zfun_in by (right; exact Hz). reflexivity.
+        * intros w0 c1 r0 _. left. rewrite Eints, zfun_in by (left; reflexivity). rewrite cpadd_eq. lra.
+      + (* the path starts at the load stage of its first instruction *)
+        change (py_pairwise (Load c0 :: Line c0 :: rest)) with ((Load c0, Line c0) :: py_pairwise (Line c0 :: rest)) in F.
+        inversion F as [|sd zw l l' HP F']; subst. destruct HP as (E1 & E2). destruct zw as [z wl]. cbn [fst snd node_int] in E1, E2. subst z.
+        destruct (plain_steps rest c0 l' F') as (steps & -> & -> & Hnx).
+        assert (Elst : node_int lst = last_line c0 steps).
+        { unfold py_last in El. inversion El. cbn [last]. destruct (map Line (map snd steps)) as [|x l0] eqn:Em.
+          - destruct steps; [reflexivity | discriminate].
+          - rewrite (last_default l0 x (Load c0) (Line c0)), <- Em, (last_map_f Line). reflexivity. }
+        assert (Eints : map node_int (Load c0 :: Line c0 :: map Line (map snd steps)) = c0 :: lines c0 steps)
+          by (unfold lines; cbn [map node_int]; rewrite map_map; cbn [node_int]; rewrite map_id; reflexivity).
+        set (c := zfun c_init (map node_int (Load c0 :: Line c0 :: map Line (map snd steps)))) in *.
+        assert (NDl : NoDup (lines c0 steps)) by (apply (increasing_nodup (map ln heap)); apply nxlinked_increasing; exact Hnx).
+        apply (Hfin c0 steps (cset c c0 (nadd QNum (c c0) wl)) []).
+        * intros z. cbn [existsb node_eq_int orb]. apply (existsb_lines (lines c0 steps) z).
+        * intros z Hz. apply Hsub0. right. change (Line c0 :: map Line (map snd steps)) with (map Line (lines c0 steps)). apply in_map. exact Hz.
+        * exact Hnx.
+        * exact Elst.
+        * reflexivity.
+        * intros z Hz. unfold cset. destruct (Z.eqb_spec z c0) as [->|_]; [inversion NDl; contradiction|].
+          unfold c. rewrite Eints, zfun_in by (right; right; exact Hz). reflexivity.
+        * intros w0 c1 r0 _. right. unfold cset. rewrite Z.eqb_refl. unfold c. rewrite Eints, zfun_in by (left; reflexivity).
+          rewrite (loadw_of_nx self_dg G1 G2 c0 wl E2), !cpadd_eq. lra.
+  Qed.
+End Main.
+
+(* ------------------------------------------------------------------ with Proofs/CritCert.cert_sound: what the reported path is when,
+   in addition, the cells add up to cp_opt (the one comparison that is left to the per-run certificate check) *)
+Section Longest.
+  Context {I : Type} (ln : I -> Z) (lat lcp : I -> Q) (set_lcp : I -> Q -> I).
+  Hypothesis ln_set : forall i v, ln (set_lcp i v) = ln i.
+  Hypothesis lat_set : forall i v, lat (set_lcp i v) = lat i.
+  Hypothesis lcp_set : forall i v, lcp (set_lcp i v) = v.
+
+  Theorem cp_model_longest_chain (self_dg : nxg Q) (heap : list I) is_dag longest refs heap' :
+    NoDup (map ekey (nx_edges_data self_dg)) ->
+    (forall u v w, In (u, v, w) (nx_edges_data self_dg) -> (exists b, v = Line b /\ (0 <= b)%Z) /\ (0 <= node_int u)%Z) ->
+    NoDup (map ln heap) -> (forall i, In i heap -> (0 <= ln i)%Z) ->
+    (forall a b w, In (Line a, Line b, w) (nx_edges_data self_dg) -> (pos (map ln heap) a < pos (map ln heap) b)%nat) ->
+    nonneg_edges (to_edges self_dg) -> forward_ok (to_edges self_dg) [] (kernel_of ln lat heap) ->
+    cp_model QNum ln lat lcp set_lcp is_dag longest self_dg heap = POk (refs, heap') ->
+    cert_value QNum (cells_of ln lcp refs heap') == cp_opt QNum (to_edges self_dg) (kernel_of ln lat heap) ->
+    let g := to_edges self_dg in let k := kernel_of ln lat heap in let cells := cells_of ln lcp refs heap' in
+    cells_spec g (lookup k) true cells /\
+    exists e l, chain g (map fst cells) e /\ In (last_of (map fst cells), l) k /\
+      clen g (map fst cells) e l == cells_sum cells /\
+      clen g (map fst cells) e l == cp_opt QNum g k /\
+      longest_chain g k (map fst cells) e l.
+  Proof.
+    intros G1 G2 ND NN G3 Hw FO H Hsum. cbv zeta.
+    destruct (cp_model_certificate ln lat lcp set_lcp ln_set lat_set lcp_set self_dg G1 G2 heap ND NN G3 is_dag longest refs heap' H) as (Hc & _ & _).
+    apply (cp_certificate_sound_lookup (to_edges self_dg) (kernel_of ln lat heap) (cells_of ln lcp refs heap') Hw FO).
+    unfold cp_certificate. rewrite Hc. cbn [andb]. apply neqb_iff. exact Hsum.
+  Qed.
+End Longest.
